@@ -6,7 +6,7 @@ use crate::setsketcher::{SetSketchParams, SetSketcher};
 
 fn out(found: bool, input: serde_json::Value, observed: String, expected: String, cases: u64) {
     let p = std::env::var("VERIF_REPLAY_OUT").unwrap();
-    let v = serde_json::json!({"found": found, "input": input, "observed": observed, "expected": expected, "cases": cases});
+    let v = serde_json::json!({"module_file": file!(), "found": found, "input": input, "observed": observed, "expected": expected, "cases": cases});
     std::fs::File::create(p).unwrap().write_all(v.to_string().as_bytes()).unwrap();
 }
 fn bh() -> BuildHasherDefault<FnvHasher> { BuildHasherDefault::<FnvHasher>::default() }
